@@ -31,6 +31,7 @@ import SwcVerif.Model.AlgoRunViews
 import SwcVerif.Model.AlgoRunCat
 import SwcVerif.Model.AlgoRunAssemble
 import SwcVerif.Model.AlgoRunLMeasure
+import SwcVerif.Model.AlgoRunLmGeo
 import SwcVerif.Model.AlgoRunNodeBranch
 import SwcVerif.Model.AlgoRunMst
 import SwcVerif.Model.AlgoRunMstFront
@@ -96,6 +97,7 @@ def dispatch (op : String) (args : List String) : String :=
   | "gslice" => AlgoRun.handleSlice args
   | "gcat" => AlgoRun.handleCat args
   | "glm" => AlgoRun.handleLm args
+  | "glmgeo" => AlgoRun.handleLmGeo args
   | "gtips" | "gnodebranch" | "gnode" => AlgoRun.handleNodeBranch op args
   | "gmst" => AlgoRun.handleMst args
   | "gmstcall" => AlgoRun.handleMstCall args
